@@ -159,7 +159,12 @@ class C02(Check):
             if kind != "stab-sampler" and tape.chance(1, 6, "integer-seed?"):
                 int_seed = [0, 7, 2 ** 31][tape.draw(3, "seed-value")]
                 ctx.probe("seed:integer")
-            n_leaves = qdrive.check_run(P, circuit, cfg, reps, ctx, max_leaves=400, entry=entry, int_seed=int_seed)
+            points = 1
+            if entry == "run_sweep" and bits * reps * 2 <= 8.6 and tape.chance(1, 2, "unparameterized-sweep?"):
+                points = 2      # sweep points over a symbol the circuit does not use are independent samples
+                ctx.probe("entry:run_sweep-unused-symbol")
+            n_leaves = qdrive.check_run(P, circuit, cfg, reps, ctx, max_leaves=400, entry=entry, int_seed=int_seed,
+                                        sweep_points=points)
         else:
             order = sorted(circuit.all_qubits())
             if len(order) > 1 and tape.chance(1, 3, "permute-order?"):
